@@ -3548,7 +3548,14 @@ class PE:
                 return True
             if isinstance(v, ast.IfExp):
                 return fresh(v.body) and fresh(v.orelse)
+            if isinstance(v, ast.Name) and v.id.startswith('_inl') and v.id in inl_fresh:
+                return True          # the single-use temporary the helper inliner makes for a returned value
             return False
+        inl_fresh = set()
+        for x in ast.walk(fdef):
+            if isinstance(x, ast.Assign) and len(x.targets) == 1 and isinstance(x.targets[0], ast.Name) and x.targets[0].id.startswith('_inl') \
+                    and not isinstance(x.value, ast.Name) and fresh(x.value):
+                inl_fresh.add(x.targets[0].id)
         good, bad = set(), set()
 
         def visit(n, top=True):
@@ -3568,7 +3575,8 @@ class PE:
                                     bad.add(x.id)
                     # the value side: a bare name that is stored / aliased / put into a display escapes
                     for x in Purity_ways(c.value):
-                        bad.add(x)
+                        if not (x.startswith('_inl') and isinstance(c.value, ast.Name)):
+                            bad.add(x)
                 elif isinstance(c, (ast.For, ast.comprehension)):
                     for x in ast.walk(c.target):
                         if isinstance(x, ast.Name):
@@ -3875,6 +3883,14 @@ class PE:
                 self.inplace_updated.update(self._written_args(n_))
             if isinstance(n_, ast.AugAssign) and isinstance(n_.target, ast.Name) and isinstance(n_.op, (ast.Add, ast.Mult, ast.BitOr, ast.BitAnd, ast.Sub, ast.BitXor)):
                 self.inplace_updated.add(n_.target.id)       # x += [..] extends the list x names, for every name of that list
+        # y = x (a plain copy of the reference) with y updated in place: x names an object that is updated in place too
+        copies_ = [(n_.targets[0].id, n_.value.id) for n_ in ast.walk(fdef)
+                   if isinstance(n_, ast.Assign) and len(n_.targets) == 1 and isinstance(n_.targets[0], ast.Name) and isinstance(n_.value, ast.Name)]
+        for _ in range(4):
+            more_ = {b_ for a_, b_ in copies_ if a_ in self.inplace_updated} - self.inplace_updated
+            if not more_:
+                break
+            self.inplace_updated |= more_
         self.bind_count = {}
         self.inplace_updated_objs = set()
         self.obj_writes = {}
